@@ -12,6 +12,10 @@ import (
 	"github.com/taurusgroup/multi-party-sig/pkg/party"
 )
 
+// errBroadcastVerification is reported when a message shows that its sender holds another view of the
+// previous round's broadcasts than we do: somebody equivocated, but we cannot tell who.
+var errBroadcastVerification = errors.New("broadcast verification failed")
+
 // StartFunc is function that creates the first round of a protocol.
 // It returns the first round initialized with the session information.
 // If the creation fails (likely due to misconfiguration), and error is returned.
@@ -162,12 +166,12 @@ func (h *MultiHandler) Accept(msg *Message) {
 
 	if msg.Broadcast {
 		if err := h.verifyBroadcastMessage(msg); err != nil {
-			h.abort(err, msg.From)
+			h.abortVerification(err, msg.From)
 			return
 		}
 	} else {
 		if err := h.verifyMessage(msg); err != nil {
-			h.abort(err, msg.From)
+			h.abortVerification(err, msg.From)
 			return
 		}
 	}
@@ -175,10 +179,32 @@ func (h *MultiHandler) Accept(msg *Message) {
 	h.finalize()
 }
 
+// abortVerification aborts after a message failed verification. The sender is blamed, unless the
+// message only shows that the parties disagree on the previous round's broadcasts.
+func (h *MultiHandler) abortVerification(err error, from party.ID) {
+	if errors.Is(err, errBroadcastVerification) {
+		h.abort(err)
+		return
+	}
+	h.abort(err, from)
+}
+
+// sameBroadcastView checks the hash of the previous round's broadcasts attached to msg against our own.
+// A message of a sender with a different view is not verified against our view (this could make an
+// honest sender look like a cheater), the mismatch is reported instead.
+func (h *MultiHandler) sameBroadcastView(msg *Message) bool {
+	previousHash := h.broadcastHashes[msg.RoundNumber-1]
+	return previousHash == nil || bytes.Equal(previousHash, msg.BroadcastVerification)
+}
+
 func (h *MultiHandler) verifyBroadcastMessage(msg *Message) error {
 	r, ok := h.rounds[msg.RoundNumber]
 	if !ok {
 		return nil
+	}
+
+	if !h.sameBroadcastView(msg) {
+		return errBroadcastVerification
 	}
 
 	// try to convert the raw message into a round.Message
@@ -222,6 +248,10 @@ func (h *MultiHandler) verifyMessage(msg *Message) error {
 		}
 	}
 
+	if !h.sameBroadcastView(msg) {
+		return errBroadcastVerification
+	}
+
 	roundMsg, err := getRoundMessage(msg, r)
 	if err != nil {
 		return err
@@ -245,7 +275,7 @@ func (h *MultiHandler) finalize() {
 		return
 	}
 	if !h.checkBroadcastHash() {
-		h.abort(errors.New("broadcast verification failed"))
+		h.abort(errBroadcastVerification)
 		return
 	}
 
@@ -312,7 +342,7 @@ func (h *MultiHandler) finalize() {
 			}
 			// if false, we aborted and so we return
 			if err = h.verifyBroadcastMessage(m); err != nil {
-				h.abort(err, m.From)
+				h.abortVerification(err, m.From)
 				return
 			}
 		}
@@ -324,7 +354,7 @@ func (h *MultiHandler) finalize() {
 			}
 			// if false, we aborted and so we return
 			if err = h.verifyMessage(m); err != nil {
-				h.abort(err, m.From)
+				h.abortVerification(err, m.From)
 				return
 			}
 		}
